@@ -83,6 +83,9 @@ const noLimit = ^uint64(0)
 func randomCfg(g *rand.Rand, seed int64, family string) SchedCfg {
 	s := SchedCfg{Seed: seed, Family: family, Strict: true}
 	nv := []int{1, 2, 3, 3, 3, 3, 4, 5, 5}[g.Intn(9)]
+	if g.Intn(24) == 0 {
+		nv = 8 + g.Intn(2) // beyond the 7-slot stack buffers of tracker.Visit and quorum
+	}
 	for i := 1; i <= nv; i++ {
 		s.Voters = append(s.Voters, uint64(i))
 	}
@@ -665,6 +668,10 @@ func runRandom(s SchedCfg, nops int, tr *traceWriter) *Cluster {
 		if x.g.Intn(3) == 0 {
 			c.exec("unblock")
 		}
+	}
+	// C15: two schedules out of three end with a fault-free suffix
+	if x.g.Intn(3) != 0 {
+		c.exec("heal")
 	}
 	c.finishMonitors()
 	return c
